@@ -2906,3 +2906,48 @@ def __getattr__(name):
     if name.startswith("__"):
         raise AttributeError(name)
     raise UnsupportedAttribute(f"numpy.{name}")
+
+
+# -- calls with arguments the model's signature lacks are "unsupported", not a TypeError of the code under analysis -----------------
+def _guard_signatures():
+    import functools
+    import inspect
+
+    def guard(name, f):
+        try:
+            sig = inspect.signature(f)
+        except (TypeError, ValueError):
+            return f
+
+        @functools.wraps(f)
+        def g(*a, **k):
+            try:
+                sig.bind(*a, **k)
+            except TypeError as e:
+                # arguments every numpy creation/conversion function takes and that change nothing for a plain in-memory array
+                k2 = {kk: v for kk, v in k.items() if not (kk in ("subok", "order", "like") and v in (True, False, None, "C", "K", "A"))}
+                if len(k2) != len(k):
+                    try:
+                        sig.bind(*a, **k2)
+                        return f(*a, **k2)
+                    except TypeError:
+                        pass
+                raise Unsupported(f"numpy.{name} called with arguments outside the model ({e})")
+            return f(*a, **k)
+        for attr in ("reduce", "accumulate", "at", "outer"):
+            if hasattr(f, attr):
+                setattr(g, attr, getattr(f, attr))
+        return g
+
+    G = globals()
+    for name, f in list(G.items()):
+        if name.startswith("_") or not inspect.isfunction(f) or f.__module__ != __name__ or not hasattr(_np, name):
+            continue
+        G[name] = guard(name, f)
+    for name, f in list(vars(ma).items()):
+        if name.startswith("_") or not inspect.isfunction(f) or not hasattr(_np.ma, name):
+            continue
+        setattr(ma, name, guard("ma." + name, f))
+
+
+_guard_signatures()
